@@ -337,7 +337,8 @@ def shard(ctx):
                         root_pieces=rng.choice([1, 1, 2, 3]))
         gen.spice(rng, spec, ['cat-keyword', 'cat-apostrophe', 'cat-punct-char',
                               'cat-digit-first', 'pos-punct-char',
-                              'pos-apostrophe', 'word-keyword'],
+                              'pos-apostrophe', 'word-keyword',
+                              'cat-decorated', 'cat-digit-last', 'edge-odd'],
                   root_labels=['TOP', 'ROOT', 'S'])
         heads = rng.choice(['direct', 'direct', 'negra', 'negra',
                             'preset:negra', 'preset:ptb'])
